@@ -92,11 +92,12 @@ def t3_def(rng, shape=None, force=None):
     nev = rng.randint(1, shape.max_events)
     enames = rng.sample(EVENT_POOL, nev)
     blocks = []
+    ptype = 'PayC' if rng.random() < 0.3 else 'Pay'     # a cloneable payload type in some machines
     for en in enames:
         payload = rng.random() < shape.p_payload
         items = []
         if payload:
-            items.append(('payload', ['Pay']))
+            items.append(('payload', [ptype]))
         items += _hooks(rng, shape, payload)
         free = lnames[:]
         rng.shuffle(free)
@@ -390,6 +391,11 @@ def get_infos(items):
 # ---------------------------------------------------------------------------------------
 # harness code
 
+def payload_type(d):
+    """`PayC` when the definition's payloads use the cloneable harness type, else `Pay`"""
+    return 'PayC' if any(e[0] == 'payload' and e[1] == ['PayC'] for it in d if it[0] == 'events'
+                         for (_, items) in it[1] for e in items) else 'Pay'
+
 def hooks_used(d):
     """{name: (kind-group, payload?)} from the definition tree (syntactic)"""
     out = {}
@@ -415,6 +421,7 @@ def module_code(idx, d, text, info):
     conc = info['concrete']
     asy = info['async']
     dyn = info['dynamic']
+    PT = 'PayC' if any(e[0] == 'payload' and e[1] == ['PayC'] for it in d if it[0] == 'events' for (_, items) in it[1] for e in items) else 'Pay'
     states = [s['name'] for s in info['states']]
     snake = {s['name']: s['snake'] for s in info['states']}
     first = states[0]
@@ -432,7 +439,7 @@ def module_code(idx, d, text, info):
     # the definition and the user's hooks live in `def`; the harness drives the machine from the enclosing
     # module, as a caller elsewhere would (everything the macro generates for callers must be `pub`)
     A('pub mod def {')
-    A('use crate::rt::{self, Named, HasId, Ctx, Pay, D};')
+    A('use crate::rt::{self, Named, HasId, Ctx, Pay, PayC, D};')
     A('use state_machines::state_machine;')
     A('use state_machines::core::{AroundOutcome, AroundStage, TransitionError, TransitionErrorKind};')
     A('state_machine! {')
@@ -463,7 +470,7 @@ def module_code(idx, d, text, info):
         A(f'      "{st["state"]}" => Some(match self.{st["opt"]}_mut() {{ Some(d) => {{ let o = d.0; d.0 = v; Some(o) }} None => None }}),')
     A('      _ => None } }')
     for name, (kind, payload) in sorted(hooks_used(d).items()):
-        parg = ', p: &Pay' if payload else ''
+        parg = f', p: &{PT}' if payload else ''
         pid = 'Some(p.id)' if payload else 'None'
         susp = 'rt::suspend(e.s).await;' if asy else ''
         if kind in ('guards', 'unless'):
@@ -486,7 +493,7 @@ def module_code(idx, d, text, info):
     A('}')
     A('}')   # end of `def`
     A('use def::*;')
-    A('use crate::rt::{self, Named, HasId, Ctx, Pay, D};')
+    A('use crate::rt::{self, Named, HasId, Ctx, Pay, PayC, D};')
     A('use state_machines::core::{AroundOutcome, AroundStage, TransitionError, TransitionErrorKind};')
     A('use std::panic::{catch_unwind, AssertUnwindSafe};')
     # holder
@@ -516,7 +523,7 @@ def module_code(idx, d, text, info):
         A(f'fn mk_event(v: &str, p: Option<u32>) -> Option<{EV}> {{ match v {{')
         for e in info['events']:
             if e['payload']:
-                A(f'  "{e["pascal"]}" => Some({EV}::{e["pascal"]}(Pay {{ id: p.unwrap_or(0) }})),')
+                A(f'  "{e["pascal"]}" => Some({EV}::{e["pascal"]}({PT} {{ id: p.unwrap_or(0) }})),')
             else:
                 A(f'  "{e["pascal"]}" => Some({EV}::{e["pascal"]}),')
         A('  _ => None } }')
@@ -570,7 +577,7 @@ def module_code(idx, d, text, info):
     A('      ("tcall", Hold::T(a)) | ("tabandon", Hold::T(a)) | ("tnopoll", Hold::T(a)) => { match (a, t[1]) {')
     for e in info['edges']:
         ev = evp[e['event']]
-        arg = 'Pay { id: pay(t[2]).unwrap_or(0) }' if ev['payload'] else ''
+        arg = (PT + ' { id: pay(t[2]).unwrap_or(0) }') if ev['payload'] else ''
         A(f'        (HAny::{e["src"]}(m), "{ev["method"]}") => {{')
         if asy:
             A(f'          if t[0] == "tnopoll" {{ let f = m.{ev["method"]}({arg}); drop(f); (Hold::Gone, "abandoned".to_string()) }} else {{')
